@@ -9,7 +9,7 @@ pub(crate) mod verif_fd3 {
     use crate::decoding::errors::ReadFrameHeaderError;
     use crate::verif_spec::vk;
 
-    pub(crate) const NF: usize = 3;
+    pub(crate) const NF: usize = 2;
     // script: what the next "frames" in the input are
     pub(crate) static mut F_SKIP: [bool; NF] = [false; NF];   // skippable frame?
     pub(crate) static mut F_SKIPLEN: [u32; NF] = [0; NF];     // its declared length
@@ -80,17 +80,17 @@ pub(crate) mod verif_fd3 {
             let mut i = 0;
             while i < NF {
                 F_SKIP[i] = kani::any(); F_SKIPLEN[i] = kani::any(); F_HDR[i] = kani::any(); F_BODY[i] = kani::any(); F_OUT[i] = kani::any(); F_BADHDR[i] = kani::any();
-                kani::assume(F_SKIPLEN[i] <= 4 && F_HDR[i] >= 1 && F_HDR[i] <= 3 && F_BODY[i] >= 1 && F_BODY[i] <= 3 && F_OUT[i] <= 3);
+                kani::assume(F_SKIPLEN[i] <= 2 && F_HDR[i] >= 1 && F_HDR[i] <= 2 && F_BODY[i] >= 1 && F_BODY[i] <= 2 && F_OUT[i] <= 2);
                 i += 1;
             }
             G_FRAME = 0; G_AVAIL = 0; G_FINISHED = true; G_INITS = 0;
         }
-        let src = [0u8; 24];
+        let src = [0u8; 14];
         let len: usize = kani::any();
-        kani::assume(len <= 24);
-        let mut target = [0u8; 6];
+        kani::assume(len <= 14);
+        let mut target = [0u8; 3];
         let tl: usize = kani::any();
-        kani::assume(tl <= 6);
+        kani::assume(tl <= 3);
         let mut d = FrameDecoder::new();
         let r = d.decode_all(&src[..len], &mut target[..tl]);
         // ---- specification from the script ----
@@ -123,7 +123,7 @@ pub(crate) mod verif_fd3 {
             assert!(matches!(r, Ok(n) if n == written), "FD3: decode_all returns the exact number of bytes written");
             let k: usize = kani::any();
             if k < written { assert!(target[k] == 0xAB, "FD3: output is written contiguously from the start of the target"); }
-            if k >= written && k < 6 { assert!(target[k] == 0, "FD3: nothing is written beyond the returned count"); }
+            if k >= written && k < 3 { assert!(target[k] == 0, "FD3: nothing is written beyond the returned count"); }
         }
         core::mem::forget(r);
         core::mem::forget(d);
@@ -166,6 +166,6 @@ pub(crate) mod verif_fd3 {
     }
 }
 //@end
-//@harness fd3_decode_all kind=proof fn=FrameDecoder::decode_all props=C10,C03 tier=quick bound="<= 3 frames/skippable frames, headers/bodies <= 3 bytes, skippable lengths <= 4, input <= 24 bytes, target <= 6 bytes" timeout=2400
+//@harness fd3_decode_all kind=proof fn=FrameDecoder::decode_all props=C10,C03 tier=thorough bound="<= 2 frames/skippable frames, headers/bodies <= 2 bytes, skippable lengths <= 2, input <= 14 bytes, target <= 3 bytes" timeout=2400 heavy=yes
 //@harness fd3_decode_all_to_vec kind=proof fn=FrameDecoder::decode_all_to_vec props=C10 tier=quick bound="vector capacity 6" timeout=1800
 //@assume in fd3_* harnesses FrameDecoder::init / decode_blocks / read / can_collect / is_finished (resp. decode_all) are scripted contract stubs: only the multi-frame driver's own logic is examined (their contracts: FD4, FD1, D2, FD7)
